@@ -146,4 +146,58 @@ example : wfH exLegacy = true := by decide +kernel
 example : (match hdrMarshal exLegacy with | .ok bs => hdrUnmarshal {} (bs ++ [0xEE]) | _ => .panic)
     = .ok (exLegacy, 24) := by decide +kernel
 
+/-! ### the hypotheses are sharp: dropping any clause of `wfP` admits a packet that does NOT
+    survive the round trip (each by kernel evaluation of the model on a concrete packet) -/
+
+/-- version 4 wraps to 0 -/
+theorem c01_sharp_version : rt { header := { version := 4 } } = false := by decide +kernel
+/-- payload type 128 sets the marker bit -/
+theorem c01_sharp_payload_type : rt { header := { payloadType := 128 } } = false := by decide +kernel
+/-- 16 CSRCs: the 4-bit count wraps to 0 and the list is read as payload -/
+theorem c01_sharp_csrc :
+    rt { header := { version := 2, csrc := List.replicate 16 7 } } = false := by decide +kernel
+/-- one-byte profile, 17-byte value: the length nibble wraps -/
+theorem c01_sharp_onebyte_len :
+    rt { header := { version := 2, extension := true, extProfile := 0xBEDE,
+                     exts := [{ id := 1, payload := List.replicate 17 1 }] } } = false := by decide +kernel
+/-- one-byte profile, empty value: the header byte becomes 0x1F -/
+theorem c01_sharp_onebyte_empty :
+    rt { header := { version := 2, extension := true, extProfile := 0xBEDE,
+                     exts := [{ id := 1, payload := [] }, { id := 2, payload := [5] }] } } = false := by decide +kernel
+/-- one-byte profile, id 15: the reserved id stops the parser -/
+theorem c01_sharp_onebyte_id15 :
+    rt { header := { version := 2, extension := true, extProfile := 0xBEDE,
+                     exts := [{ id := 15, payload := [1] }] } } = false := by decide +kernel
+/-- one-byte profile, id 0 is padding -/
+theorem c01_sharp_onebyte_id0 :
+    rt { header := { version := 2, extension := true, extProfile := 0xBEDE,
+                     exts := [{ id := 0, payload := [1] }] } } = false := by decide +kernel
+/-- two-byte profile, id 0 is padding -/
+theorem c01_sharp_twobyte_id0 :
+    rt { header := { version := 2, extension := true, extProfile := 0x1000,
+                     exts := [{ id := 0, payload := [1, 2] }] } } = false := by decide +kernel
+/-- two-byte profile, 256-byte value: the length byte wraps -/
+theorem c01_sharp_twobyte_len :
+    rt { header := { version := 2, extension := true, extProfile := 0x1000,
+                     exts := [{ id := 1, payload := List.replicate 256 1 }] } } = false := by decide +kernel
+/-- legacy profile, value not in whole words: Marshal fails -/
+theorem c01_sharp_legacy_words :
+    rt { header := { version := 2, extension := true, extProfile := 0x1234,
+                     exts := [{ id := 0, payload := [1, 2, 3] }] } } = false := by decide +kernel
+/-- legacy profile with two elements: only the first is written -/
+theorem c01_sharp_legacy_single :
+    rt { header := { version := 2, extension := true, extProfile := 0x1234,
+                     exts := [{ id := 0, payload := [1, 2, 3, 4] }, { id := 0, payload := [5, 6, 7, 8] }] } } = false := by
+  decide +kernel
+/-- padding flag without a size: Marshal fails -/
+theorem c01_sharp_padding_flag : rt { header := { version := 2, padding := true }, paddingSize := 0 } = false := by
+  decide +kernel
+/-- padding size without the flag: the padding octets come back as payload -/
+theorem c01_sharp_padding_size :
+    rt { header := { version := 2 }, payload := [9], paddingSize := 2 } = false := by decide +kernel
+/-- …and a packet that meets every clause does survive (sanity of `rt`) -/
+theorem c01_sharp_sanity :
+    rt { header := { version := 2, padding := true, extension := true, extProfile := 0xBEDE,
+                     exts := [{ id := 1, payload := [1] }] }, payload := [9], paddingSize := 2 } = true := by decide +kernel
+
 end Rtp.Props.C01
